@@ -135,6 +135,21 @@ CHECKS = {
         "note": "time bounds are measured, not proved; the model's atomic actions are the critical sections and channel operations of the real code",
         "technique": "Lean 4 proof (invariant by induction over action sequences, progress after loss) + regenerated tie lemmas + scripted fault-injection correspondence and concurrent storms",
     },
+    "C05": {
+        "text": "Lean 4 theorems about a model of the generated code (Model/Gen.lean): the generated Marshal code writes the "
+                "documented serialization of every typed value (generated_marshal_is_doc, via the scalar table tied to the "
+                "constructors and to type/basic's widths), the generated Unmarshal code inverts it, the arguments of a call made "
+                "through the generated proxy (reflection encoder) arrive at the generated stub equal (call_arguments_arrive), the "
+                "returned value reaches the caller equal (call_result_returns), a signal's payload reaches a generated subscriber "
+                "equal for one and for several parameters, a property round-trips through the signature-checked accessors and a "
+                "value of another type is refused; tied by the regenerated constructor table, basic widths and the shapes of 33 "
+                "statement generators; validated by compiling and running generated packages: real server, real session, "
+                "generated implementor, independent codec for the values",
+        "note": "partial: 'the generated code compiles' is translation validation by sampling (go build of every generated package), "
+                "not a theorem; identifier hygiene and a few types (obj, unknown, nothing as parameters, non-comparable map keys, "
+                "properties of type any or without parameter) are listed findings",
+        "technique": "Lean 4 proof (generated marshal = documented layout; composition with the C03 codec lemmas) + regenerated tie lemmas + translation validation: generated packages compiled and run against the model's pipeline",
+    },
     "C06": {
         "text": "Lean 4 invariant over all sequences of connections, frames (any type, ids, payload bytes) and mailbox steps, "
                 "for every authenticator: a connection is marked authenticated only after an authenticate request of its "
